@@ -57,7 +57,7 @@ var (
 
 const (
 	c07User = "conf-user"
-	c07Pass = "S3cr3t-Passw0rd-Qz7"
+	c07Pass = "S3cr3t-Passw0rd-Qz7%s"
 )
 
 func c07Exec(r *vf.Run, cfg c07Cfg) []finding {
@@ -149,7 +149,10 @@ func c07Exec(r *vf.Run, cfg c07Cfg) []finding {
 		host = "127.0.0.1"
 		opts[1] = mail.WithTLSConfig(hx.ClientTLS("127.0.0.1"))
 	} else {
-		rig := &hx.Rig{Mk: func(n int) *refsmtp.Conn {
+		dialNo := 0
+		rig := &hx.Rig{Mk: func(int) *refsmtp.Conn {
+			n := dialNo
+			dialNo++
 			if cfg.FB == 3 {
 				n-- // the dial to the primary port is refused; the judged connection is the one to the fallback port
 			}
@@ -160,6 +163,12 @@ func c07Exec(r *vf.Run, cfg c07Cfg) []finding {
 		}}
 		opts = append(opts, mail.WithDialContextFunc(rig.Dial))
 		switch {
+		case cfg.Setters && cfg.FB == 3:
+			// a fallback port left behind by an earlier port policy: constructed with WithTLSPortPolicy(opportunistic)
+			// (port 587, fallback 25), then the policy is changed through SetTLSPolicy — the fallback port stays
+			pol := []mail.TLSPolicy{mail.TLSMandatory, mail.TLSOpportunistic, mail.NoTLS}[cfg.Policy]
+			opts = append(opts, mail.WithTLSPortPolicy(mail.TLSOpportunistic))
+			post = append(post, func(c *mail.Client) { c.SetTLSPolicy(pol) })
 		case cfg.Setters:
 			pol := []mail.TLSPolicy{mail.TLSMandatory, mail.TLSOpportunistic, mail.NoTLS}[cfg.Policy]
 			opp := mail.NoTLS
@@ -341,6 +350,15 @@ func c07Exec(r *vf.Run, cfg c07Cfg) []finding {
 	if handshakeDone {
 		r.Outcome("tls-established/" + pol)
 	}
+	if cfg.FB > 0 && len(conn.ClientBytes) > 0 {
+		r.Outcome(fmt.Sprintf("fallback-connection-used/fb=%d", cfg.FB))
+	}
+	if cfg.Setters && (len(sess.Transcript) > 1 || handshakeDone) {
+		r.Outcome("configured-through-setters")
+	}
+	if cfg.Prev > 0 {
+		r.Outcome("second-dial-judged")
+	}
 	if sess.Authed {
 		r.Outcome("authenticated/" + an)
 	}
@@ -351,7 +369,7 @@ func init() {
 	vf.Register(&vf.Check{
 		ID: "C07", Title: "TLS policy and credential confidentiality hold against any server",
 		Run: func(r *vf.Run) {
-			r.SetRule("the full product TLS policy {mandatory, opportunistic, none, implicit (go-mail's own TLS dialer over a loopback bridge)} × 13 auth types × (mandatory/opportunistic) WithTLSPortPolicy with the primary port refusing × (implicit TLS) fallback enabled with the primary port refusing and the fallback port 25 served by a plain-text or an implicit-TLS server × configuration through options or through the Client's setters (after construction with the opposite settings) × host name {mail.example.test, five remote names that resemble loopback names (localhost.example.test, 127.0.0.1.example.test, …), localhost, 127.0.0.1} × server behaviour {STARTTLS advertised or not; reply 220 / 454 / 501 / garbage / 220 followed by injected plaintext; handshake ok / wrong-name certificate / untrusted certificate / garbage; 7 advertised AUTH lists}, each executed with real crypto/tls handshakes where reached; oracle on the byte tap of everything the client wrote before/after the switch to TLS; distinct by configuration")
+			r.SetRule("the full product TLS policy {mandatory, opportunistic, none, implicit (go-mail's own TLS dialer over a loopback bridge)} × 13 auth types × (mandatory/opportunistic) WithTLSPortPolicy with the primary port refusing (also with the policy changed afterwards through SetTLSPolicy, which leaves the fallback port in place) × (implicit TLS) fallback enabled with the primary port refusing and the fallback port 25 served by a plain-text or an implicit-TLS server × configuration through options or through the Client's setters (after construction with the opposite settings) × host name {mail.example.test, five remote names that resemble loopback names (localhost.example.test, 127.0.0.1.example.test, …), localhost, 127.0.0.1} × server behaviour {STARTTLS advertised or not; reply 220 / 454 / 501 / garbage / 220 followed by injected plaintext; handshake ok / wrong-name certificate / untrusted certificate / garbage; 7 advertised AUTH lists}, each executed with real crypto/tls handshakes where reached; oracle on the byte tap of everything the client wrote before/after the switch to TLS; distinct by configuration")
 			r.Assume("a completed server-side handshake implies the client accepted the certificate (TLS 1.2/1.3 semantics)", "implicit TLS is only exercised against loopback addresses (go-mail's dialer needs a real socket; the fallback cases listen on port 25 of 127.x.y.z)")
 			var cfgs []c07Cfg
 			for pol := 0; pol < 4; pol++ {
@@ -402,6 +420,7 @@ func init() {
 										if hostIdx == 0 && pol <= 1 && (st == 0 || st == 1) {
 											// WithTLSPortPolicy: the first dial is refused, the fallback connection is judged
 											cfgs = append(cfgs, c07Cfg{Policy: pol, Auth: a, Local: local, HostIdx: hostIdx, Adv: adv, STReply: st, HS: hs, AuthList: al, FB: 3})
+											cfgs = append(cfgs, c07Cfg{Policy: pol, Auth: a, Local: local, HostIdx: hostIdx, Adv: adv, STReply: st, HS: hs, AuthList: al, FB: 3, Setters: true})
 										}
 										if hostIdx == 0 && hs == 0 && st == 0 && pol <= 1 {
 											for _, prev := range []int{2, 4, 7} { // earlier connection advertised PLAIN / PLAIN LOGIN / everything inside TLS
@@ -442,6 +461,8 @@ func init() {
 					})
 				}
 			})
+			r.Reached("fallback-connection-used/fb=1", "fallback-connection-used/fb=2", "fallback-connection-used/fb=3", "configured-through-setters", "second-dial-judged",
+				"tls-established/mandatory", "tls-established/opportunistic", "tls-established/implicit", "authenticated/PLAIN", "authenticated/SCRAM-SHA-256-PLUS")
 		},
 		Replay: func(r *vf.Run, kase json.RawMessage) {
 			var k c07Cfg
